@@ -209,7 +209,7 @@ def run(ctx, rep):
         names = set(b["key"] for h, n in (("Arc", "assume_init"), ("UniqueArc", "assume_init"), ("UniqueArc", "assume_init_slice"), ("UniqueArc", "assume_init_slice_with_header")) for b in F.method(h, n))
         seen = 0
         for b in F.body_list:
-            owner = F.body(b["owner"]) if b["kind"] == "Closure" else b
+            owner = (F.body(b.get("owner")) or b) if b["kind"] == "Closure" else b
             B = cfg.Body(b)
             for bi, t in B.calls():
                 r = t.get("resolved")
